@@ -1269,7 +1269,7 @@ class ActionPrebuilder(xtuml.tools.Walker):
         prev = None
         for child in node.children:
             v_par = self.accept(child)
-            xtuml.relate(prev, v_par, 816, 'succeeds')
+            xtuml.relate(prev, v_par, 816, 'precedes')
             prev = v_par
             yield v_par
             
@@ -1452,7 +1452,7 @@ class ActionPrebuilder(xtuml.tools.Walker):
         prev_v_par = None
         for child in reversed(node.children):
             v_par = self.accept(child)
-            xtuml.relate(prev_v_par, v_par, 816, 'precedes')
+            xtuml.relate(v_par, prev_v_par, 816, 'precedes')
             xtuml.relate(v_par, one(v_val).V_BRV[801](), 810)
             xtuml.relate(v_par, one(v_val).V_TRV[801](), 811)
             xtuml.relate(v_par, one(v_val).V_FNV[801](), 817)
